@@ -10,17 +10,38 @@ COQ_RUN = ("Json.Run", "run_c18")
 GEN_TARGETS = []
 N = {"quick": 2500, "thorough": 16000}
 RULE = (
-    "REAL objects of /repo, built by deterministic recipes: (wspec 30%) specifications found by level-by-level "
+    "REAL objects of /repo, built by deterministic recipes: (wspec 25%) specifications found by level-by-level "
     "searches over word classes (example.py's AvoidingWithPrefix) with RuleDB, RuleDBForgetStrategy, "
-    "RuleDBForest(reverse=True/False) and 9 pack shapes (example pack, strategies with settings, generic strategy, "
+    "RuleDBForest(reverse=True/False) and 10 pack shapes (example pack, strategies with settings, generic strategy, "
     "symmetry, inferral, factory yielding strategies / ready rules / rules of another class — the latter forces "
-    "reverse rules —, brute-force verification with settings, iterative), a few sizes counted first so that lazily "
-    "added empty rules exist; (tspec 17%) specifications of random table universes (reverse rules, equivalence of "
-    "reverse rules, equivalence paths, verification rules with children); (rule 15%) single rules taken from such "
-    "specifications and their reverse / equivalence / reverse-then-equivalence forms; (strategy 18%) every strategy "
-    "class with default and non-default settings, compared with a variant (one setting or flag changed, other class, "
-    "created through a subscripted generic alias); (pack 12%) packs incl. symmetries/iterative and a variant; "
-    "(bij 8%) bijections from ParallelSpecFinder + Bijection.construct between word classes. A quarter of the spec / "
+    "reverse rules —, brute-force verification with settings, iterative, a strategy whose settings are containers: a "
+    "list and a dictionary with nested lists/dictionaries), a few sizes counted first so that lazily "
+    "added empty rules exist; (tspec 13%) specifications of random table universes (reverse rules, equivalence of "
+    "reverse rules, equivalence paths, verification rules with children); (gspec 5%) specifications built DIRECTLY "
+    "from rule objects over random context-free grammar classes (harness/universes/c18_gram.py: unions, products with "
+    "repeated factors, single-child unions and unions with an empty alternative as equivalence rules, paths of "
+    "several rules, strategy objects shared by all rules or one per rule, explicit or lazily added empty rules, "
+    "group_equiv on/off); (rule 14%) single rules taken from all three kinds of specifications and their reverse / "
+    "equivalence / reverse-then-equivalence forms, the first rule whose reverse rule (idx > 0 when possible) is an "
+    "equivalence as EquivalenceRule(ReverseRule), paths through reverse rules; (strategy 16%) every strategy "
+    "class with default and non-default settings (scalars and containers), compared with a variant (one setting or "
+    "flag changed — for containers an element added or the container nested —, other class, "
+    "created through a subscripted generic alias); (pack 11%) packs incl. symmetries/iterative, up to 4 expansion "
+    "sets with up to 3 strategies each, and a variant; "
+    "(bij 16%) bijections by three recipes: ParallelSpecFinder + Bijection.construct between word classes (one pack); "
+    "Bijection.construct of two word specifications searched SEPARATELY, the two classes drawn from groups of binary "
+    "pattern sets with the same counting sequence (brute-forced), the two packs possibly different (other child order, "
+    "inferral or symmetry steps on one side only); Bijection.construct of two random PRESENTATIONS of one abstract "
+    "grammar (children permuted, products with repeated factors, sub-grammars shared on one side and copied up to 3 "
+    "times on the other — so that one domain class is matched with several codomain classes and vice versa —, "
+    "equivalence steps inserted on one side only, products whose constructor hands index data (nested JSON values) "
+    "to the isomorphism). About a quarter of the bijections have a domain class matched with >= 2 codomain "
+    "classes, a fifth the converse, 60% a non-identity child order, 14% index data, a quarter equivalences on one "
+    "side only (tags in the distribution). The original and the reloaded bijection are compared with map and "
+    "inverse_map on ALL objects of the two root classes (enumerated by the classes, not by the specifications) of "
+    "sizes 0..N, N >= 5 the first size at which a probe copy of the original has looked up every entry of its order "
+    "map in both directions (tag order-map-fully-exercised; otherwise up to size 10 / 600 objects). "
+    "A quarter of the spec / "
     "rule cases is compared with ANOTHER specification / rule (== must be False unless classes, forms and strategies "
     "agree). Start classes are non-empty (the searcher assumes it). A third of the remaining cases carry a "
     "mutation of the JSON document — ineffective ones count as pristine — (unknown class_module / class name, dropped or extra key, rule_class swapped, "
@@ -52,7 +73,13 @@ LEVEL_NOTE = (
     "JSON<->sx conversion, tables of user behaviour). Modelled not verified: the (de)serialisation code itself. "
     "Not modelled: labels (_enforce_labels), _group_equiv_in_path (from_dict uses group_equiv=False), the warning for "
     "children that differ from the saved ones, AlreadyVerified, ProofTree JSON; counts/objects/equations of the "
-    "reloaded object are compared by the oracle only (they are functions of the reproduced rules)."
+    "reloaded object are compared by the oracle only (they are functions of the reproduced rules). Bijections: that the "
+    "maps of the reloaded bijection equal the original's is decided by the oracle on all objects up to the size that "
+    "exercises the whole order map (the theorem states that every entry of order map and index data is reproduced; "
+    "ParseTreeMap is not modelled here). Index data reaches no map of the five modelled rule forms "
+    "(only user subclasses of the abstract NonBijectiveRule consume it): its round trip is checked by the model "
+    "correspondence (document and reloaded _index_data), not by the map comparison. Nested dictionaries inside "
+    "strategy settings are generated with sorted keys (the model compares nested objects in order)."
 )
 TRUSTED = [
     "modelled, not verified: to_jsonable/from_dict/__eq__ of specification.py, strategies/rule.py, strategies/strategy.py, "
@@ -70,7 +97,8 @@ ASSUMPTIONS = [
 ]
 
 FLAGKEYS = ["_ignore_parent", "_inferrable", "_possibly_empty", "_workable"]
-KINDS = {"strategy": 0, "rule": 1, "pack": 2, "wspec": 3, "tspec": 3, "bij": 4}
+KINDS = {"strategy": 0, "rule": 1, "pack": 2, "wspec": 3, "tspec": 3, "gspec": 3, "bij": 4}
+SPECS = ("wspec", "tspec", "gspec")
 
 
 def _U():
@@ -83,6 +111,12 @@ def _T():
     from harness.universes import table
 
     return table
+
+
+def _G():
+    from harness.universes import c18_gram
+
+    return c18_gram
 
 
 # ------------------------------------------------------------------ JSON -> sx
@@ -312,7 +346,7 @@ def mutate(J, mut, kind, word=True):
     if op == "dropkey":
         tops = {"strategy": [], "rule": [], "pack": ["name", "initial_strats", "inferral_strats", "ver_strats",
                                                      "expansion_strats"],
-                "wspec": ["root", "rules"], "tspec": ["root", "rules"],
+                "wspec": ["root", "rules"], "tspec": ["root", "rules"], "gspec": ["root", "rules"],
                 "bij": ["spec", "other", "order", "index_data", "classes"]}[kind]
         cands = [(J, k, True) for k in tops if k in J]
         if kind == "pack":
@@ -361,14 +395,14 @@ def mutate(J, mut, kind, word=True):
         c[i % len(c)]["rules"].reverse()
         return J, False
     if op == "swaprules":
-        if kind in ("wspec", "tspec") and len(J.get("rules", [])) > 1:
+        if kind in SPECS and len(J.get("rules", [])) > 1:
             r = J["rules"]
             a, b = i % len(r), (i + 1 + arg) % len(r)
             r[a], r[b] = r[b], r[a]
         return J, False
     if op == "dropempty":
         # forget the rules of the empty classes: from_dict must add them again lazily (get_rule)
-        if kind in ("wspec", "tspec"):
+        if kind in SPECS:
             J["rules"] = [r for r in J.get("rules", [])
                           if not (r.get("rule_class") == "VerificationRule"
                                   and r.get("strategy", {}).get("strategy_class") == "EmptyStrategy")]
@@ -403,8 +437,17 @@ def _tuid(u):
 
 
 def _find_spec(sc):
-    """sc = {"t": "w", cls, pack, db, seed, warm} | {"t": "t", u, db, seed}"""
+    """sc = {"t": "w", cls, pack, db, seed, warm} | {"t": "t", u, db, seed} | {"t": "g", g, side}"""
     U = _U()
+    if sc["t"] == "g":
+        G = _G()
+        g = sc["g"]
+        side = "1" if sc.get("side", 1) == 1 else "2"
+        try:
+            return G.make_spec(G.register({"prods": g["prods"]}), g["r" + side], bool(g["ge" + side]),
+                               bool(g.get("ee")), bool(g.get("share", 1)))
+        except Exception:  # pylint: disable=broad-except
+            return None
     if sc["t"] == "w":
         try:
             spec = U.search(U.make_class(sc["cls"]), U.make_pack(sc["pack"]), sc["db"], sc["seed"])
@@ -423,6 +466,24 @@ def _find_spec(sc):
         return U.search(T.TClass(uid, sc["u"]["start"]), U.table_pack(uid), sc["db"], sc["seed"], seconds=3)
     except Exception:  # pylint: disable=broad-except
         return None       # table universes may break engine asserts that other properties own
+
+
+def _find_bij(case):
+    """three recipes: ParallelSpecFinder over two word classes (one pack); two word specifications searched
+    separately (packs may differ) handed to Bijection.construct; two presentations of a grammar"""
+    from comb_spec_searcher.isomorphism import Bijection
+
+    U = _U()
+    if "g" in case:
+        return _G().find_bijection(case["g"])
+    if case.get("how") == "construct":
+        s1 = U.search(U.make_class(case["c1"]), U.make_pack(case["pack"]), case.get("db1", 0), case["seed"])
+        s2 = U.search(U.make_class(case["c2"]), U.make_pack(case["pack2"]), case.get("db2", 0), case["seed"])
+        if s1 is None or s2 is None:
+            return None
+        return Bijection.construct(s1, s2)
+    return U.find_bijection(U.make_class(case["c1"]), U.make_class(case["c2"]), U.make_pack(case["pack"]),
+                            U.make_pack(case["pack"]), case["seed"])
 
 
 def _from_dict(kind, J):
@@ -447,15 +508,48 @@ def _derive_rule(spec, sel):
     """pick a rule of the specification and derive a form of it; sel = [index, how, idx]"""
     from comb_spec_searcher.strategies.rule import EquivalencePathRule, Rule
 
+    from comb_spec_searcher.strategies.rule import EquivalenceRule, ReverseRule
+
     rules = list(spec)
     pool = []
     for r in rules:
         pool.append(r)
         if isinstance(r, EquivalencePathRule):
             pool.extend(r.rules)
-    r = pool[sel[0] % len(pool)]
     how = sel[1]
+    if how >= 5:
+        # the plain rules hidden inside equivalence / reverse rules as well
+        for r in list(pool):
+            while isinstance(r, (EquivalenceRule, ReverseRule)):
+                r = r.original_rule
+                pool.append(r)
+    r = pool[sel[0] % len(pool)]
     try:
+        if how == 5:
+            # the first plain rule (from the selected one on) that has a reverse rule which is an
+            # equivalence: EquivalenceRule(ReverseRule(rule, idx)), idx > 0 when possible
+            n = len(pool)
+            for k in range(n):
+                q = pool[(sel[0] + k) % n]
+                if type(q) is not Rule or not q.children or not q.is_reversible():
+                    continue
+                idxs = list(range(len(q.children)))
+                idxs = idxs[sel[2] % len(idxs):] + idxs[:sel[2] % len(idxs)]
+                for i in idxs:
+                    if q.children[i].is_empty():
+                        continue
+                    rr = q.to_reverse_rule(i)
+                    if rr.is_equivalence():
+                        return rr.to_equivalence_rule()
+            return r
+        if how == 6 and type(r) is Rule and r.is_reversible() and r.children:
+            # a path through a reverse rule that is an equivalence / a two-step path
+            rr = r.to_reverse_rule(sel[2] % len(r.children))
+            if rr.is_equivalence() and len(rr.children) == 1:
+                if r.is_equivalence() and len(r.children) == 1:
+                    return EquivalencePathRule([rr, r])
+                return EquivalencePathRule([rr])
+            return rr
         if how == 1 and type(r) is Rule and r.is_reversible() and r.children:
             return r.to_reverse_rule(sel[2] % len(r.children))
         if how == 2 and type(r) is Rule and r.is_equivalence():
@@ -488,7 +582,7 @@ def build(case):
     elif kind == "pack":
         x = U.make_pack(case["pack"])
         y = U.make_pack(case["other"]) if case.get("other") else None
-    elif kind in ("wspec", "tspec"):
+    elif kind in SPECS:
         x = _find_spec(case["spec"])
         y = _find_spec(case["other"]) if case.get("other") else None
     elif kind == "rule":
@@ -497,15 +591,14 @@ def build(case):
         y = _derive_rule(sp, case["other"]) if sp is not None and case.get("other") else None
     elif kind == "bij":
         try:
-            x = U.find_bijection(U.make_class(case["c1"]), U.make_class(case["c2"]), U.make_pack(case["pack"]),
-                                 U.make_pack(case["pack"]), case["seed"])
+            x = _find_bij(case)
         except Exception:  # pylint: disable=broad-except
             x = None
     res = {"kind": kind, "x": x, "J": None, "y": y, "must_raise": False, "mutated": False}
     if x is not None:
         J = jcopy(x.to_jsonable())
         if case.get("mut"):
-            word = not (kind == "tspec" or (kind == "rule" and case["spec"]["t"] == "t"))
+            word = not (kind == "tspec" or (kind == "rule" and case["spec"]["t"] == "t"))   # cls(**d) honoured
             J2, must = mutate(J, case["mut"], kind, word)
             res["mutated"] = J2 != J
             res["must_raise"] = must and res["mutated"]
@@ -571,11 +664,15 @@ def _forms(r, acc):
 
     acc.add(type(r).__name__)
     if isinstance(r, EquivalencePathRule):
+        if len(r.rules) > 1:
+            acc.add("path-of-several-rules")
         for x in r.rules:
             _forms(x, acc)
     elif isinstance(r, (EquivalenceRule, ReverseRule)):
         if isinstance(r, EquivalenceRule) and isinstance(r.original_rule, ReverseRule):
             acc.add("EquivalenceOfReverse")
+        if isinstance(r, ReverseRule) and r.idx > 0:
+            acc.add("ReverseRule-idx>0")
         _forms(r.original_rule, acc)
     elif isinstance(r.strategy, EmptyStrategy):
         acc.add("EmptyRule")
@@ -601,7 +698,15 @@ def _spec_behaviour(sp, word):
            "nrules": _attempt(sp.number_of_rules)}
     if word:
         obs["counts"] = _attempt(lambda: [sp.count_objects_of_size(n) for n in range(9)])
-        obs["objects"] = _attempt(lambda: [sorted(sp.generate_objects_of_size(n)) for n in range(7)])
+        def objects():
+            out = []
+            for n in range(7):
+                if sp.count_objects_of_size(n) > 1000:      # (grammar classes can grow very fast)
+                    break
+                out.append(sorted(sp.generate_objects_of_size(n)))
+            return out
+
+        obs["objects"] = _attempt(objects)
         obs["equations"] = _attempt(lambda: sorted(str(e) for e in sp.get_equations()))
         obs["rule_counts"] = _attempt(lambda: [[sp.get_rule(c).count_objects_of_size(n) for n in range(6)]
                                                for c in list(sp.rules_dict)])
@@ -615,29 +720,84 @@ def _rule_behaviour(r):
             "eqv": _attempt(lambda: bool(r.is_equivalence()))}
 
 
-def _bij_behaviour(b):
-    def maps():
-        out = []
-        for n in range(7):
-            for w in sorted(b.domain.generate_objects_of_size(n)):
-                out.append((w, b.map(w)))
-            for w in sorted(b.codomain.generate_objects_of_size(n)):
-                out.append((w, b.inverse_map(w)))
-        return out
+BIJ_MIN_N, BIJ_MAX_N, BIJ_MAX_OBJS = 5, 10, 600
 
-    return {"maps": _attempt(maps),
+
+class _Rec(dict):
+    """a dictionary that remembers which keys were looked up"""
+
+    def __init__(self, d):
+        super().__init__(d)
+        self.hit = set()
+
+    def __getitem__(self, k):
+        self.hit.add(k)
+        return dict.__getitem__(self, k)
+
+
+def _bij_plan(x):
+    """The objects the two bijections are compared on: ALL objects of the two root classes (the classes' own
+    enumeration, not the specifications') of sizes 0..N, N the first size >= BIJ_MIN_N at which a probe copy of
+    the ORIGINAL bijection has looked up every entry of its order map, in both directions (entries that no
+    object ever uses exist — matches recorded on abandoned branches —: then up to BIJ_MAX_N / BIJ_MAX_OBJS
+    objects).  -> (domain objects by size, codomain objects by size, entries used, entries)"""
+    from comb_spec_searcher.isomorphism import Bijection
+
+    try:
+        probe = Bijection(x.domain, x.codomain, _Rec(x._get_order), dict(x._index_data))
+        probe._get_inverse_order = _Rec(probe._get_inverse_order)
+    except Exception:  # pylint: disable=broad-except
+        probe = None
+    dom, cod, total = [], [], 0
+    used = entries = 0
+    for n in range(BIJ_MAX_N + 1):
+        try:
+            if n and total + 2 * x.domain.count_objects_of_size(n) > 3 * BIJ_MAX_OBJS:
+                break
+        except Exception:  # pylint: disable=broad-except
+            pass
+        d = sorted(x.domain.root.objects_of_size(n))
+        c = sorted(x.codomain.root.objects_of_size(n))
+        dom.append(d)
+        cod.append(c)
+        total += len(d) + len(c)
+        if probe is not None:
+            for f, objs in ((probe.map, d), (probe.inverse_map, c)):
+                for w in objs:
+                    try:
+                        f(w)
+                    except Exception:  # pylint: disable=broad-except
+                        pass
+            used = len(probe._get_order.hit) + len(probe._get_inverse_order.hit)
+            entries = len(probe._get_order) + len(probe._get_inverse_order)
+        if total > BIJ_MAX_OBJS or (n >= BIJ_MIN_N and (probe is None or used == entries)):
+            break
+    return dom, cod, used, entries
+
+
+def _bij_behaviour(b, plan):
+    dom, cod = plan[0], plan[1]
+
+    def one(f, w):
+        try:
+            return str(f(w))
+        except Exception as ex:  # pylint: disable=broad-except
+            return "raised " + type(ex).__name__
+
+    return {"map": [[str(w), one(b.map, w)] for lvl in dom for w in lvl],
+            "inverse_map": [[str(w), one(b.inverse_map, w)] for lvl in cod for w in lvl],
             "order": _attempt(lambda: sorted(((_ck(k[0]), _ck(k[1])), list(v)) for k, v in b._get_order.items())),
             "inv": _attempt(lambda: sorted(((_ck(k[0]), _ck(k[1])), list(v)) for k, v in b._get_inverse_order.items())),
             "dom": _spec_behaviour(b.domain, True)["str"], "cod": _spec_behaviour(b.codomain, True)["str"]}
 
 
-def _behaviour(kind, o):
-    if kind in ("wspec", "tspec"):
-        return _spec_behaviour(o, kind == "wspec")
+def _behaviour(kind, o, plan=None):
+    if kind in SPECS:
+        return _spec_behaviour(o, kind != "tspec")
     if kind == "rule":
         return _rule_behaviour(o)
     if kind == "bij":
-        return _bij_behaviour(o)
+        return _bij_behaviour(o, plan)
     return {"repr": repr(o), "str": _attempt(lambda: str(o)), "json": _attempt(lambda: jcopy(o.to_jsonable()))}
 
 
@@ -652,6 +812,7 @@ def _effective(spec):
     for p in inspect.signature(cl.__init__).parameters.values():
         if p.name != "self" and p.default is not inspect.Parameter.empty:
             full[p.name] = p.default
+    full.update(U.EFFECTIVE_DEFAULTS.get(name, {}))      # None standing for a fresh empty container
     full.update(kwargs)
     return [name, sorted(full.items())]
 
@@ -660,6 +821,38 @@ def _effective_pack(ps):
     m = lambda l: [_effective(s) for s in l]  # noqa: E731
     return [ps["name"], m(ps["initial"]), m(ps["inferral"]), [m(x) for x in ps["expansion"]], m(ps["ver"]),
             m(ps["sym"]), bool(ps["iterative"])]
+
+
+def _bij_canon(J):
+    """a bijection document with the numbers of the classes array resolved"""
+    cl = [json.dumps(c, sort_keys=True) for c in J["classes"]]
+
+    def flat(m):
+        return sorted(([cl[int(i)], cl[int(j)]], v) for i, sub in m.items() for j, v in sub.items())
+
+    return {"spec": J["spec"], "other": J["other"], "order": flat(J["order"]),
+            "index_data": json.dumps(flat(J["index_data"]), sort_keys=True)}
+
+
+def _bij_tags(case, x):
+    from collections import Counter
+
+    order = x._get_order
+    tags = ["bij-gram" if "g" in case else ("bij-word-construct" if case.get("how") == "construct" else "bij-word-parallel")]
+    if order:
+        if max(Counter(c1 for c1, _ in order).values()) > 1:
+            tags.append("domain-class-with-several-codomain-classes")
+        if max(Counter(c2 for _, c2 in order).values()) > 1:
+            tags.append("codomain-class-with-several-domain-classes")
+        if any(list(v) != sorted(v) for v in order.values()):
+            tags.append("permuted-child-order")
+    if x._index_data:
+        tags.append("index-data")
+    e1 = sum(1 for r in x.domain if r.is_equivalence())
+    e2 = sum(1 for r in x.codomain if r.is_equivalence())
+    if e1 != e2:
+        tags.append("equivalences-on-one-side-only" if 0 in (e1, e2) else "different-number-of-equivalences")
+    return tags
 
 
 def impl(case):
@@ -685,12 +878,14 @@ def impl(case):
         out += [int(type(x) is type(y) and x.to_jsonable() == y.to_jsonable()),
                 int(not any(_dunder(k) for k in x.__dict__))]
         tags.append("with-settings" if any(k not in FLAGKEYS and not _dunder(k) for k in x.__dict__) else "flags-only")
+        if any(isinstance(v, (list, dict)) for k, v in x.__dict__.items() if k not in FLAGKEYS and not _dunder(k)):
+            tags.append("container-settings")
     elif kind == "rule":
         out += [1, int(_plain_rule(x))]
         acc = set()
         _forms(x, acc)
         tags += sorted(acc)
-    elif kind in ("wspec", "tspec"):
+    elif kind in SPECS:
         out += [1]
         acc = set()
         for r in x:
@@ -699,16 +894,37 @@ def impl(case):
         obs["nrules"] = len(x.rules_dict)
     elif kind == "pack":
         obs["nstrats"] = len(list(x))
+        if len(x.expansion_strats) >= 2:
+            tags.append("pack-several-expansion-sets")
+    elif kind == "bij":
+        tags += _bij_tags(case, x)
     if obs["raised"]:
         tags.append("raised")
     # observations for the oracle
     if z is not None:
         obs["eq"] = [bool(z == x), bool(x == z)] if kind != "bij" else None
         if not b["mutated"]:
-            bx, bz = _behaviour(kind, x), _behaviour(kind, z)
+            plan = None
+            if kind == "bij":
+                plan = _bij_plan(x)
+                obs["plan"] = [sum(len(l) for l in plan[0]), sum(len(l) for l in plan[1]), len(plan[0]) - 1,
+                               plan[2], plan[3]]
+                tags.append("order-map-fully-exercised" if plan[2] == plan[3] and plan[3] else
+                            "order-map-partly-exercised")
+            bx, bz = _behaviour(kind, x, plan), _behaviour(kind, z, plan)
             obs["diff"] = [k for k in bx if bx[k] != bz[k]]
             obs["detail"] = {k: [str(bx[k])[:300], str(bz[k])[:300]] for k in obs["diff"][:2]}
-            obs["again"] = _attempt(lambda: jcopy(z.to_jsonable()) == J)
+            for k in ("map", "inverse_map"):
+                if k in obs["diff"]:
+                    bad = [(a, c) for a, c in zip(bx[k], bz[k]) if a != c]
+                    obs["detail"][k] = ["original %s(%r) = %r" % (k, bad[0][0][0], bad[0][0][1]),
+                                        "reloaded: %r (%d of %d objects differ)" % (bad[0][1][1], len(bad), len(bx[k]))]
+            if kind == "bij":
+                # the numbering of the classes array follows the insertion order of the order map, which a
+                # round trip may change (entries are regrouped by domain class): compare up to the numbering
+                obs["again"] = _attempt(lambda: _bij_canon(jcopy(z.to_jsonable())) == _bij_canon(J))
+            else:
+                obs["again"] = _attempt(lambda: jcopy(z.to_jsonable()) == J)
     if case.get("other"):
         obs["other_eq"] = [bool(x == y), bool(y == x)]
         if kind == "rule":
@@ -716,7 +932,7 @@ def impl(case):
             same = same_cls and type(x) is type(y) and repr(x.strategy) == repr(y.strategy) and \
                 jcopy(x.to_jsonable()) == jcopy(y.to_jsonable())
             obs["other_same"] = True if same else (False if not same_cls else None)
-        if kind in ("wspec", "tspec"):
+        if kind in SPECS:
             def fp(sp):
                 return sorted((_ck(c), type(r).__name__, repr(r.strategy),
                                [repr(q.strategy) for q in getattr(r, "rules", [])]) for c, r in sp.rules_dict.items())
@@ -740,6 +956,10 @@ def oracle(case, res):
             return "from_dict(to_jsonable(x)) raised " + obs["raised"]
         if kind != "bij" and obs["eq"] != [True, True]:
             return "from_dict(to_jsonable(x)) == x is %r / reversed %r" % (obs["eq"][0], obs["eq"][1])
+        if kind == "bij" and ("map" in obs["diff"] or "inverse_map" in obs["diff"]):
+            k = "map" if "map" in obs["diff"] else "inverse_map"
+            return "the reloaded bijection does not agree with the original: %s; %s (differing: %s)" % (
+                obs["detail"][k][0], obs["detail"][k][1], obs["diff"])
         if obs["diff"]:
             return "the reloaded object behaves differently: %s %r" % (obs["diff"], obs["detail"])
         if obs["again"] is not True:
@@ -774,7 +994,7 @@ def nontrivial(case, res):
     if not obs:
         return False
     k = case["kind"]
-    if k in ("wspec", "tspec"):
+    if k in SPECS:
         return obs.get("nrules", 0) >= 4
     if k == "rule":
         return any(t in res["tags"] for t in ("ReverseRule", "EquivalenceRule", "EquivalencePathRule"))
@@ -810,10 +1030,12 @@ def _gen_strategy(rng, alias_ok=True):
     for f in ("ignore_parent", "inferrable", "possibly_empty", "workable"):
         if rng.random() < 0.25:
             fl[f] = rng.random() < 0.5
-    if r < 0.08:
+    if r < 0.06:
         return ["ExpansionStrategy", {}, 0]
-    if r < 0.16:
+    if r < 0.10:
         return ["RemoveFrontOfPrefix", {}, 0]
+    if r < 0.16:
+        return ["PermExpand", dict(fl, **_gen_containers(rng)), 0]
     if r < 0.22:
         return ["AtomStrategy", {}, 0]
     if r < 0.30:
@@ -845,6 +1067,18 @@ def _gen_strategy(rng, alias_ok=True):
     return ["ParentExpandFactory", {"descending": rng.random() < 0.5}, 0]
 
 
+def _gen_containers(rng):
+    """container-valued settings (JSON values; dictionaries with sorted keys: the model compares nested objects
+    entry by entry in order, Python's == does not look at the order)"""
+    kw = {}
+    if rng.random() < 0.85:
+        kw["perm"] = rng.choice([[1, 0], [0, 1], [2, 0, 1], [], [0], [1, 0, 2], [[1], 0]])
+    if rng.random() < 0.7:
+        kw["meta"] = rng.choice([{}, {"a": [1, 2, [3]]}, {"k": {"in": [], "t": "x"}, "z": None}, {"l": [{"m": 1}, "s", True]},
+                                 {"a": [1, 2, [3, 4]]}])
+    return kw
+
+
 def _variant(rng, s):
     """another recipe: same, one setting changed, one flag changed, alias toggled, other class"""
     name, kw, alias = s
@@ -865,6 +1099,10 @@ def _variant(rng, s):
                 new = not cur
             elif isinstance(cur, int):
                 new = cur + 1
+            elif isinstance(cur, list) or (cur is None and p.name == "perm"):
+                new = list(cur or []) + [7] if rng.random() < 0.5 else [list(cur or [])]
+            elif isinstance(cur, dict) or (cur is None and p.name == "meta"):
+                new = dict(cur or {}, zz=[len(cur or {})])
             else:
                 new = str(cur) + "!"
             return [name, dict(kw, **{p.name: new}), alias]
@@ -872,7 +1110,7 @@ def _variant(rng, s):
 
 
 def _gen_pack(rng, shape=None):
-    shape = shape if shape is not None else rng.randrange(9)
+    shape = shape if shape is not None else rng.choice([0, 1, 2, 3, 4, 5, 6, 7, 8, 8, 8, 9])
     ps = {"initial": [], "inferral": [], "expansion": [], "ver": [_s("AtomStrategy")], "sym": [], "iterative": 0,
           "name": "pack %d" % shape}
     if shape == 0:      # the example pack
@@ -898,9 +1136,11 @@ def _gen_pack(rng, shape=None):
     elif shape == 7:    # both expansions, flags changed
         ps.update(initial=[_s("RemoveFront", max_remove=1, ignore_parent=False)],
                   expansion=[[_s("ExpandOrdered", descending=False, inferrable=False)], [_s("ExpansionStrategy")]])
+    elif shape == 9:    # container-valued settings
+        ps.update(initial=[_s("RemoveFrontOfPrefix")], expansion=[[_s("PermExpand", **_gen_containers(rng))]])
     else:               # random bag
         k = lambda: [x for x in (_gen_strategy(rng, alias_ok=False) for _ in range(rng.randint(0, 3)))]  # noqa: E731
-        ps.update(initial=k(), inferral=k(), expansion=[k() for _ in range(rng.randint(0, 2))], ver=k(), sym=k(),
+        ps.update(initial=k(), inferral=k(), expansion=[k() for _ in range(rng.randint(0, 4))], ver=k(), sym=k(),
                   iterative=int(rng.random() < 0.3), name=rng.choice(["bag", "", "pack ü"]))
     return ps
 
@@ -927,7 +1167,7 @@ def _gen_cls1(rng, shape=None):
 
 
 def _gen_wspec(rng):
-    shape = rng.choice([0, 0, 1, 2, 3, 4, 5, 6, 6, 7])
+    shape = rng.choice([0, 0, 1, 2, 3, 4, 5, 6, 6, 7, 9])
     db = rng.randrange(4)
     if shape == 6 and rng.random() < 0.8:
         db = 2
@@ -950,6 +1190,68 @@ def _gen_tspec(rng):
     return {"t": "t", "u": u, "db": rng.choice([0, 1, 2, 2, 3]), "seed": rng.randrange(1000)}
 
 
+_POOLS = None
+
+
+def _word_pools():
+    """sets of <= 2 binary patterns of length <= 3 (and a few longer ones), grouped by the number of avoiding
+    words of every length <= 8 (counted here by brute force): only classes of one group can be in bijection"""
+    global _POOLS
+    if _POOLS is None:
+        import itertools
+
+        words = ["".join(t) for n in (1, 2, 3) for t in itertools.product("ab", repeat=n)]
+        sets = [[w] for w in words] + [[u, v] for i, u in enumerate(words) for v in words[i + 1:]
+                                       if u not in v and v not in u]
+        sets += [[w] for w in ("aaaa", "abab", "abba", "aabb", "baab", "bbbb", "baba", "abaa", "bbab")]
+        sets += [["aaa", "bbb"], ["aba", "bab"], ["aaaa", "bbbb"], ["abab", "baba"], ["aab", "bba", "aba"],
+                 ["abb", "baa", "bab"], ["aba", "ab"], ["bab", "ba"], ["abab", "bb"], ["baba", "aa"]]
+        allw = ["".join(t) for n in range(9) for t in itertools.product("ab", repeat=n)]
+        groups = {}
+        for ps in sets:
+            cnt = [0] * 9
+            for w in allw:
+                if not any(p in w for p in ps):
+                    cnt[len(w)] += 1
+            groups.setdefault(tuple(cnt), []).append(ps)
+        _POOLS = [g for g in groups.values() if len(g) >= 2]
+    return _POOLS
+
+
+def _gen_bij(rng):
+    r = rng.random()
+    if r < 0.4:
+        return {"kind": "bij", "g": _G().random_pair(rng)}
+    alph = rng.choice(["ab", "01"])
+    tr = str.maketrans("ab", alph)
+    if r < 0.55:
+        pairs = [(["aa"], ["bb"]), (["ab"], ["ba"]), (["aab"], ["abb"]), (["aba", "bb"], ["bab", "aa"]), (["aa"], ["ab"]),
+                 (["bab", "ba"], ["aba", "ab"]), (["aa", "ba"], ["aa", "bb"]), (["aa", "bb"], ["ab", "ba"]),
+                 (["aaa", "bbb"], ["aba", "bab"])]
+        p1, p2 = rng.choice(pairs)
+        return {"kind": "bij", "c1": ["AvoidingWithPrefix", "", [p.translate(tr) for p in p1], alph, 0],
+                "c2": ["AvoidingWithPrefix", "", p2, "ab", 0],
+                "pack": _gen_pack(rng, rng.choice([0, 0, 7])), "seed": rng.randrange(100)}
+    # two specifications searched separately (the packs may differ: other child orders, inferral or symmetry
+    # steps on one side only), classes with the same counting sequence
+    pools = _word_pools()
+    for _ in range(4):
+        group = rng.choice(pools)
+        p1, p2 = rng.choice(group), rng.choice(group)
+        if (len(p1) > 1 and len(p2) > 1 and p1 != p2) or rng.random() < 0.25:
+            break
+    sh1, sh2 = rng.choice([(0, 0), (0, 0), (1, 0), (0, 1), (1, 1), (7, 0), (4, 0), (0, 4), (3, 0), (9, 0), (0, 9), (9, 9)])
+    return {"kind": "bij", "how": "construct",
+            "c1": ["AvoidingWithPrefix", "", [p.translate(tr) for p in p1], alph, 0],
+            "c2": ["AvoidingWithPrefix", "", p2, "ab", 0],
+            "pack": _gen_pack(rng, sh1), "pack2": _gen_pack(rng, sh2),
+            "db1": rng.choice([0, 0, 1, 3]), "db2": rng.choice([0, 0, 1, 3]), "seed": rng.randrange(100)}
+
+
+def _gen_gspec(rng):
+    return {"t": "g", "g": _G().random_pair(rng), "side": rng.choice([1, 2])}
+
+
 MUTS = ["module", "clsname", "dropkey", "dropkey", "extrakey", "wrongkind", "idx", "revpath", "swaprules"]
 SPEC_MUTS = ["dropempty", "dropempty", "dropempty"]
 
@@ -958,7 +1260,7 @@ def _gen_mut(rng, kind):
     ops = list(MUTS)
     if kind == "bij":
         ops += ["orderkey", "orderkey", "swapclasses", "dropkey"]
-    if kind in ("wspec", "tspec"):
+    if kind in SPECS:
         ops += SPEC_MUTS
     return [rng.choice(ops), rng.randrange(1000), rng.randrange(0, 4)]
 
@@ -966,12 +1268,12 @@ def _gen_mut(rng, kind):
 def gen(rng, tier):
     while True:
         r = rng.random()
-        if r < 0.18:
+        if r < 0.16:
             s = _gen_strategy(rng)
             case = {"kind": "strategy", "s": s}
             if rng.random() < 0.7:
                 case["other"] = _variant(rng, s)
-        elif r < 0.30:
+        elif r < 0.27:
             p = _gen_pack(rng)
             case = {"kind": "pack", "pack": p}
             if rng.random() < 0.6:
@@ -988,7 +1290,7 @@ def gen(rng, tier):
                 else:
                     q["expansion"] = q["expansion"] + [[_s("ExpansionStrategy")]]
                 case["other"] = q
-        elif r < 0.60:
+        elif r < 0.52:
             case = {"kind": "wspec", "spec": _gen_wspec(rng)}
             if rng.random() < 0.25:
                 o = _gen_wspec(rng)
@@ -1001,24 +1303,28 @@ def gen(rng, tier):
                     if o["pack"]["name"] == "pack 6":
                         o["pack"] = _gen_pack(rng, 0)
                 case["other"] = o
-        elif r < 0.77:
+        elif r < 0.65:
             case = {"kind": "tspec", "spec": _gen_tspec(rng)}
-        elif r < 0.92:
-            sp = _gen_wspec(rng) if rng.random() < 0.6 else _gen_tspec(rng)
-            case = {"kind": "rule", "spec": sp, "sel": [rng.randrange(1000), rng.choice([0, 1, 1, 2, 3, 3, 4]), rng.randrange(6)]}
+        elif r < 0.70:
+            case = {"kind": "gspec", "spec": _gen_gspec(rng)}
+            if rng.random() < 0.25:
+                o = copy.deepcopy(case["spec"])
+                if rng.random() < 0.5:
+                    o["side"] = 3 - o["side"]
+                else:
+                    o["g"]["ge%d" % o["side"]] = 1 - o["g"]["ge%d" % o["side"]]
+                case["other"] = o
+        elif r < 0.84:
+            x = rng.random()
+            sp = _gen_wspec(rng) if x < 0.5 else (_gen_tspec(rng) if x < 0.8 else _gen_gspec(rng))
+            case = {"kind": "rule", "spec": sp,
+                    "sel": [rng.randrange(1000), rng.choice([0, 1, 1, 2, 3, 3, 4, 5, 5, 6]), rng.randrange(6)]}
             if rng.random() < 0.3:
                 sel = case["sel"]
-                case["other"] = rng.choice([[sel[0], rng.choice([0, 1, 2, 3, 4]), rng.randrange(6)],
+                case["other"] = rng.choice([[sel[0], rng.choice([0, 1, 2, 3, 4, 5, 6]), rng.randrange(6)],
                                             [rng.randrange(1000), sel[1], sel[2]], list(sel)])
         else:
-            alph = rng.choice(["ab", "01"])
-            pairs = [(["aa"], ["bb"]), (["ab"], ["ba"]), (["aab"], ["abb"]), (["aba", "bb"], ["bab", "aa"]), (["aa"], ["ab"]),
-                     (["bab", "ba"], ["aba", "ab"])]
-            p1, p2 = rng.choice(pairs)
-            tr = str.maketrans("ab", alph)
-            case = {"kind": "bij", "c1": ["AvoidingWithPrefix", "", [p.translate(tr) for p in p1], alph, 0],
-                    "c2": ["AvoidingWithPrefix", "", p2, "ab", 0],
-                    "pack": _gen_pack(rng, rng.choice([0, 0, 7])), "seed": rng.randrange(100)}
+            case = _gen_bij(rng)
         if "other" not in case and rng.random() < 0.33:
             case["mut"] = _gen_mut(rng, case["kind"])
         yield case
